@@ -61,6 +61,11 @@ func GenGenesis(t *rapid.T, prof *Profile) GenesisSpec {
 	doc := defaultEcoDoc()
 	accts := DefaultAccounts()
 	draw := func(label string, n int) int { return uniform(t, label, n) }
+	// the network the history runs on: the properties hold on every chain id, the real ones included
+	if id := []string{"", "", "", "regen-1", "regen-redwood-1", "regen-local", "regen-test-1", "cosmoshub-4"}[draw("g.chainid", 8)]; id != "" {
+		g.ChainID = id
+		g.Notes = append(g.Notes, "chain-id="+id)
+	}
 	// a vesting account among the users: most of its coins are locked (it owns them, it cannot spend them)
 	if prof.VestingPct > 0 && draw("g.vesting", 100) >= 100-prof.VestingPct {
 		keep := []string{"1000", "1000000", "50000000", "0"}[draw("g.vesting.keep", 4)]
